@@ -230,6 +230,9 @@ def cfg(pid, tier):
                MaxSteps=4 if q else 5),
             # names that need escaping inside a path segment; creates that carry oneTimeEventType (with and without being an
             # event); one-time events between the sessions
+            # requests that name references never handed out (the number the next sessions will get), then creates
+            sl("future", 400 if q else 3000, Consumers=S("a"), BadRefs=True, MaxSess=3, Modes=S("off"), Reqs=S(), Vols=S(1), TrigSets=S("none"),
+               TopUps=S(), Recharges=False, AcctChoices=S((9, 1)), MaxSteps=4 if q else 5),
             # events that carry more usage than one record holds, between creates of the same subscriber and consumer
             sl("bulk", 300 if q else 2000, Consumers=S("a"), Events=True, BulkEvents=S(4000), MaxSess=3,
                Modes=S("off"), Reqs=S(), Vols=S(1), TrigSets=S("none"), TopUps=S(), Recharges=False, AcctChoices=S((9, 1)),
